@@ -168,6 +168,10 @@ impl<T> RcInner<T> {
     ///
     /// The given `ptr` must not be shared across more than one thread.
     pub(crate) unsafe fn dealloc(ptr: *mut Self) {
+        #[cfg(circ_verif)]
+        crate::verif::pre(crate::verif::site::U_DEALLOC);
+        #[cfg(circ_verif)]
+        crate::verif::ev(crate::verif::site::EV_DEALLOC, ptr as usize, 0, 0);
         drop(Box::from_raw(ptr));
     }
 
@@ -183,6 +187,8 @@ impl<T> RcInner<T> {
 
     #[inline]
     pub(crate) fn increment_strong(&self) -> bool {
+        #[cfg(circ_verif)]
+        crate::verif::pre(crate::verif::site::U_INC_FAA1);
         let val = State::from_raw(self.state.fetch_add(COUNT, Ordering::SeqCst));
         if val.destructed() {
             return false;
@@ -190,6 +196,8 @@ impl<T> RcInner<T> {
         if val.strong() == 0 {
             // The previous fetch_add created a permission to run decrement again.
             // Now create an actual reference.
+            #[cfg(circ_verif)]
+            crate::verif::pre(crate::verif::site::U_INC_FAA2);
             self.state.fetch_add(COUNT, Ordering::SeqCst);
         }
         true
@@ -197,6 +205,10 @@ impl<T> RcInner<T> {
 
     #[inline]
     unsafe fn try_dealloc(ptr: *mut Self) {
+        #[cfg(circ_verif)]
+        crate::verif::ev(crate::verif::site::EV_EXEC_DEALLOC, ptr as usize, 0, 0);
+        #[cfg(circ_verif)]
+        crate::verif::pre(crate::verif::site::U_TDEALLOC_LOAD);
         if State::from_raw((*ptr).state.load(Ordering::SeqCst)).weak() > 0 {
             Self::decrement_weak(ptr, None);
         } else {
@@ -206,8 +218,12 @@ impl<T> RcInner<T> {
 
     #[inline]
     pub(crate) fn increment_weak(&self, count: u32) {
+        #[cfg(circ_verif)]
+        crate::verif::pre(crate::verif::site::U_INCW_LOAD);
         let mut old = State::from_raw(self.state.load(Ordering::SeqCst));
         while !old.weaked() {
+            #[cfg(circ_verif)]
+            crate::verif::pre(crate::verif::site::U_INCW_CAS);
             // In this case, `increment_weak` must have been called from `Rc::downgrade`,
             // guaranteeing weak > 0, so it can’t be incremented from 0.
             debug_assert!(old.weak() != 0);
@@ -221,6 +237,8 @@ impl<T> RcInner<T> {
                 Err(curr) => old = State::from_raw(curr),
             }
         }
+        #[cfg(circ_verif)]
+        crate::verif::pre(crate::verif::site::U_INCW_FAA1);
         if State::from_raw(
             self.state
                 .fetch_add(count as u64 * WEAK_COUNT, Ordering::SeqCst),
@@ -228,22 +246,32 @@ impl<T> RcInner<T> {
         .weak()
             == 0
         {
+            #[cfg(circ_verif)]
+            crate::verif::pre(crate::verif::site::U_INCW_FAA2);
             self.state.fetch_add(WEAK_COUNT, Ordering::SeqCst);
         }
     }
 
     #[inline]
     pub(crate) unsafe fn decrement_weak(ptr: *mut Self, guard: Option<&Guard>) {
+        #[cfg(circ_verif)]
+        crate::verif::pre(crate::verif::site::U_DECW_FAA);
         debug_assert!(State::from_raw((*ptr).state.load(Ordering::SeqCst)).weak() >= 1);
         if State::from_raw((*ptr).state.fetch_sub(WEAK_COUNT, Ordering::SeqCst)).weak() == 1 {
             guard.defer_with_inner(ptr, |inner| Self::try_dealloc(inner));
+            #[cfg(circ_verif)]
+            crate::verif::ev(crate::verif::site::EV_DEFER_DEALLOC, ptr as usize, 0, 0);
         }
     }
 
     #[inline]
     pub(crate) fn is_not_destructed(&self) -> bool {
+        #[cfg(circ_verif)]
+        crate::verif::pre(crate::verif::site::U_ISND_LOAD);
         let mut old = State::from_raw(self.state.load(Ordering::SeqCst));
         while !old.destructed() && old.strong() == 0 {
+            #[cfg(circ_verif)]
+            crate::verif::pre(crate::verif::site::U_ISND_CAS);
             match self.state.compare_exchange(
                 old.as_raw(),
                 old.add_strong(1).as_raw(),
@@ -261,10 +289,16 @@ impl<T> RcInner<T> {
 impl<T: RcObject> RcInner<T> {
     #[inline]
     pub(crate) unsafe fn decrement_strong(ptr: *mut Self, count: u32, guard: Option<&Guard>) {
+        #[cfg(circ_verif)]
+        crate::verif::pre(crate::verif::site::U_DEC_EPOCH);
         let epoch = global_epoch();
         // Should mark the current epoch on the strong count with CAS.
         let hit_zero = loop {
+            #[cfg(circ_verif)]
+            crate::verif::pre(crate::verif::site::U_DEC_LOAD);
             let curr = State::from_raw((*ptr).state.load(Ordering::SeqCst));
+            #[cfg(circ_verif)]
+            crate::verif::pre(crate::verif::site::U_DEC_CAS);
             debug_assert!(curr.strong() >= count);
             if (*ptr)
                 .state
@@ -283,6 +317,8 @@ impl<T: RcObject> RcInner<T> {
         let trigger_recl = |guard: &Guard| {
             if hit_zero {
                 guard.defer_with_inner(ptr, |inner| Self::try_destruct(inner));
+                #[cfg(circ_verif)]
+                crate::verif::ev(crate::verif::site::EV_DEFER_DESTRUCT, ptr as usize, 0, 0);
             }
             // Periodically triggers a collection.
             guard.incr_manual_collection();
@@ -297,6 +333,10 @@ impl<T: RcObject> RcInner<T> {
 
     #[inline]
     unsafe fn try_destruct(ptr: *mut Self) {
+        #[cfg(circ_verif)]
+        crate::verif::ev(crate::verif::site::EV_EXEC_DESTRUCT, ptr as usize, 0, 0);
+        #[cfg(circ_verif)]
+        crate::verif::pre(crate::verif::site::U_TD_LOAD);
         let mut old = State::from_raw((*ptr).state.load(Ordering::SeqCst));
         debug_assert!(!old.destructed());
         loop {
@@ -304,6 +344,8 @@ impl<T: RcObject> RcInner<T> {
                 Self::decrement_strong(ptr, 1, None);
                 return;
             }
+            #[cfg(circ_verif)]
+            crate::verif::pre(crate::verif::site::U_TD_CAS);
             match (*ptr).state.compare_exchange(
                 old.as_raw(),
                 old.with_destructed(true).as_raw(),
@@ -338,6 +380,8 @@ unsafe fn dispose_general_node<T: RcObject>(
         None => return,
     };
 
+    #[cfg(circ_verif)]
+    crate::verif::pre(crate::verif::site::U_DG_ENTER);
     let count = counter.get();
     counter.set(count + 1);
     if count % 128 == 0 {
@@ -349,13 +393,19 @@ unsafe fn dispose_general_node<T: RcObject>(
     if depth >= 1024 {
         // Prevent a potential stack overflow.
         guard.defer_with_inner(rc, |rc| RcInner::try_destruct(rc));
+        #[cfg(circ_verif)]
+        crate::verif::ev(crate::verif::site::EV_DEFER_DESTRUCT, rc as *mut _ as usize, 1, depth as u64);
         return;
     }
 
+    #[cfg(circ_verif)]
+    crate::verif::pre(crate::verif::site::U_DG_LOAD);
     let state = State::from_raw(rc.state.load(Ordering::SeqCst));
     let node_epoch = state.epoch();
     debug_assert_eq!(state.strong(), 0);
 
+    #[cfg(circ_verif)]
+    crate::verif::pre(crate::verif::site::U_DG_EPOCH);
     let curr_epoch = global_epoch();
     let modu: Modular<EPOCH_WIDTH> = Modular::new(curr_epoch as isize + 1);
     let mut outgoings = Vec::new();
@@ -364,9 +414,20 @@ unsafe fn dispose_general_node<T: RcObject>(
     // old enough, `modu.le` may return false.
     if depth == 0 || modu.le(node_epoch as _, curr_epoch as isize - 3) {
         // The current node is immediately reclaimable.
+        #[cfg(circ_verif)]
+        crate::verif::ev(
+            crate::verif::site::EV_DG_DECIDE,
+            rc as *mut _ as usize,
+            ((depth as u64) << 32) | node_epoch as u64,
+            ((curr_epoch as u64) << 1) | 1,
+        );
+        #[cfg(circ_verif)]
+        crate::verif::pre(crate::verif::site::U_DG_POP);
         rc.data_mut().pop_edges(&mut outgoings);
         unsafe {
             ManuallyDrop::drop(&mut rc.storage);
+            #[cfg(circ_verif)]
+            crate::verif::pre(crate::verif::site::U_DG_WEAKED);
             if State::from_raw(rc.state.load(Ordering::SeqCst)).weaked() {
                 RcInner::decrement_weak(rc, Some(guard));
             } else {
@@ -384,7 +445,11 @@ unsafe fn dispose_general_node<T: RcObject>(
 
             // Decrement next node's strong count and update its epoch.
             let next_cnt = loop {
+                #[cfg(circ_verif)]
+                crate::verif::pre(crate::verif::site::U_DG_CHILD_LOAD);
                 let cnt_curr = State::from_raw(next_ref.state.load(Ordering::SeqCst));
+                #[cfg(circ_verif)]
+                crate::verif::pre(crate::verif::site::U_DG_CHILD_CAS);
                 let next_epoch =
                     modu.max(&[node_epoch as _, link_epoch as _, cnt_curr.epoch() as _]);
                 let cnt_next = cnt_curr.sub_strong(1).with_epoch(next_epoch as _);
@@ -403,13 +468,97 @@ unsafe fn dispose_general_node<T: RcObject>(
                 }
             };
 
+            #[cfg(circ_verif)]
+            crate::verif::ev(
+                crate::verif::site::EV_DG_CHILD,
+                next_ptr.as_raw() as usize,
+                next_cnt.epoch() as u64,
+                next_cnt.strong() as u64,
+            );
             // If the reference count hit zero, try dispose it recursively.
             if next_cnt.strong() == 0 {
                 dispose_general_node(next_ptr.as_raw(), depth + 1, counter, guard);
             }
         }
     } else {
+        #[cfg(circ_verif)]
+        crate::verif::ev(
+            crate::verif::site::EV_DG_DECIDE,
+            rc as *mut _ as usize,
+            ((depth as u64) << 32) | node_epoch as u64,
+            (curr_epoch as u64) << 1,
+        );
         // It is likely to be unsafe to reclaim right now.
+        #[cfg(circ_verif)]
+        crate::verif::ev(crate::verif::site::EV_DEFER_DESTRUCT, rc as *mut _ as usize, 2, depth as u64);
         guard.defer_with_inner(rc, |rc| RcInner::try_destruct(rc));
+    }
+}
+
+/// Crate-private helpers of this file, exported for the conformance harness.
+#[cfg(circ_verif)]
+pub(crate) mod verif_shim {
+    use super::*;
+
+    /// `(strong, weak, destructed, weaked, epoch)` of a raw count word, by the crate's accessors.
+    pub fn state_decode(raw: u64) -> (u32, u32, bool, bool, u32) {
+        let s = State::from_raw(raw);
+        (s.strong(), s.weak(), s.destructed(), s.weaked(), s.epoch())
+    }
+    pub fn state_with_epoch(raw: u64, epoch: usize) -> u64 {
+        State::from_raw(raw).with_epoch(epoch).as_raw()
+    }
+    pub fn state_add_strong(raw: u64, val: u32) -> u64 {
+        State::from_raw(raw).add_strong(val).as_raw()
+    }
+    pub fn state_sub_strong(raw: u64, val: u32) -> u64 {
+        State::from_raw(raw).sub_strong(val).as_raw()
+    }
+    pub fn state_add_weak(raw: u64, val: u32) -> u64 {
+        State::from_raw(raw).add_weak(val).as_raw()
+    }
+    pub fn state_with_destructed(raw: u64, b: bool) -> u64 {
+        State::from_raw(raw).with_destructed(b).as_raw()
+    }
+    pub fn state_with_weaked(raw: u64, b: bool) -> u64 {
+        State::from_raw(raw).with_weaked(b).as_raw()
+    }
+    /// The word a fresh object starts with.
+    pub fn state_initial(init_strong: u32) -> u64 {
+        (init_strong as u64) * COUNT + WEAK_COUNT
+    }
+    /// `(COUNT, WEAK_COUNT)`: the unit increments used by `fetch_add`/`fetch_sub`.
+    pub fn state_units() -> (u64, u64) {
+        (COUNT, WEAK_COUNT)
+    }
+    pub fn modular_le(max: isize, a: isize, b: isize) -> bool {
+        Modular::<EPOCH_WIDTH>::new(max).le(a, b)
+    }
+    pub fn modular_max(max: isize, nums: &[isize]) -> isize {
+        Modular::<EPOCH_WIDTH>::new(max).max(nums)
+    }
+    pub fn modular_trans(max: isize, a: isize) -> isize {
+        Modular::<EPOCH_WIDTH>::new(max).trans(a)
+    }
+    pub fn modular_inver(max: isize, a: isize) -> isize {
+        Modular::<EPOCH_WIDTH>::new(max).inver(a)
+    }
+    /// Reads the count word of the block at `addr`.
+    ///
+    /// # Safety
+    /// `addr` must be the address of an `RcInner<T>` whose memory is still mapped.
+    pub unsafe fn peek_state<T>(addr: usize) -> u64 {
+        (*(addr as *const RcInner<T>)).state.load(Ordering::SeqCst)
+    }
+    /// Byte offset of the count word inside the block, and the block's size and alignment.
+    pub fn block_layout<T>() -> (usize, usize, usize) {
+        let probe = std::mem::MaybeUninit::<RcInner<T>>::uninit();
+        let base = probe.as_ptr() as usize;
+        let off = unsafe { std::ptr::addr_of!((*probe.as_ptr()).state) as usize } - base;
+        (
+            off,
+            std::mem::size_of::<RcInner<T>>(),
+            std::mem::align_of::<RcInner<T>>(),
+        )
     }
 }
